@@ -162,6 +162,22 @@ def Sum(lo, hi, fn):
     return acc
 
 
+class SumOf:
+    """one Sum definition applied to several ranges: S = SumOf(lambda i: body); S(lo, hi).
+    (different applications of the same definition are related by the split-last lemma schema)"""
+
+    def __init__(self, fn):
+        self.fn = fn
+        self.bv = T.Fresh.int("k")
+        body = T.to_real(T.to_z3(fn(self.bv)))
+        params = [c for c in T.free_consts(body) if not c.eq(self.bv)]
+        params.sort(key=lambda c: c.decl().name())
+        self.d = T.SumDef(self.bv, body, params)
+
+    def __call__(self, lo, hi):
+        return self.d.app(lo, hi)
+
+
 def _u(name, cf):
     def f(x):
         if is_sym(x) or isinstance(x, Fraction):
